@@ -60,9 +60,11 @@ CHECKS = {
  "C17": ('abstract interpretation of the four inter-event distributions on symbolic event streams and of seven ratio statistics on a symbolic graph with materialised timelines (exact fractions); interval-length typing; purity',
          'Global / per-node (either, source, target) / per-pair distributions equal the gap histograms on streams with ties, equal gaps and an emptied log bucket; coverage, node_contribution, uniformity, node_pair_uniformity, density, pair_density, node_presence equal their definitions on 49 (thorough: 1024) presence valuations of a 4-node graph with seven snapshot ids (runs, holes, nested and staggered runs; |T| differs from the span); edge_contribution measures closed intervals as end-start+1; observers pure. node_density / snapshot_density not covered; bounded shapes.',
          "4/C17"),
+ "C20": ("abstract interpretation of delta_conformity end to end and of sliding_delta_conformity (with delta_conformity recorded) on symbolic temporal graphs; constant propagation of the float arithmetic on concrete hop distances",
+         "On bounded shapes (3 nodes, 2-3 stored pairs, ids 1,2,4, every presence valuation, three windows, uniform / two-valued / all label partitions, alphas 1.0 and 2.5): None iff the window is empty, scores for exactly the nodes present at start per alpha and profile, every score in [-1,1], unchanged under renaming of label values, 1 / 0 under a single shared label; the sliding driver evaluates exactly the windows with t+delta before the last id, forwards its arguments, skips None and stamps t+delta. Renaming of node ids, hierarchies, profile_size>1 and larger graphs are NOT decided.",
+         "4/C20"),
 }
 NA = [
- ("C20", "numerical range / invariance of floating-point accumulations over runtime path sets (DESIGN.md section 5)"),
 ]
 def main():
     built = sorted(p[:-3] for p in os.listdir(os.path.join(VERIF, "props")) if p.startswith("C") and p.endswith(".py"))
